@@ -3,8 +3,8 @@
 # separate clone of /verif and scratch worktrees of /repo (nothing in /repo or /verif is touched).
 # Results: /verif/seeded/RESULTS.tsv (id, property, tier, caught?, first VIOLATION line).
 pat=${1:-*}; tier=${2:-quick}
-ev=/root/seedeval/verif
-if [ ! -d $ev ]; then mkdir -p /root/seedeval; git clone -q /verif $ev; fi
+ev=${SEEDEVAL:-/root/seedeval/verif}
+if [ ! -d $ev ]; then mkdir -p $(dirname $ev); git clone -q /verif $ev; fi
 git -C $ev pull -q --ff-only 2>/dev/null || { rm -rf $ev; git clone -q /verif $ev; }
 ( cd $ev && ./check --setup >/dev/null 2>&1 )
 out=/verif/seeded/RESULTS.tsv; touch $out
@@ -19,8 +19,8 @@ for d in /verif/seeded/$pat/; do
   git -C /repo worktree remove --force $wt
   first=$(echo "$log" | grep -a -m1 '^VIOLATION' | tr -cd '[:print:]'); detail=$(echo "$log" | grep -a -m1 '^  (' | cut -c1-160 | tr -cd '[:print:]')
   caught=no; [ $rc = 1 ] && [ -n "$first" ] && caught=yes
-  grep -v "^$id	" $out > $out.tmp; mv $out.tmp $out
-  printf "%s\t%s\t%s\t%s\t%s\t%s\n" "$id" "$prop" "$tier" "$caught" "$first" "$detail" >> $out
+  ( flock 9; grep -v "^$id	" $out > $out.tmp.$$; mv $out.tmp.$$ $out
+  printf "%s\t%s\t%s\t%s\t%s\t%s\n" "$id" "$prop" "$tier" "$caught" "$first" "$detail" >> $out ) 9>/root/seedeval/.results.lock
   echo "$id: caught=$caught  $first $detail"
 done
-sort -o $out $out
+( flock 9; sort -o $out $out ) 9>/root/seedeval/.results.lock
